@@ -26,6 +26,7 @@ void Taps::begin_call()
     ticks = 0;
     mallocs = 0;
     inflate_calls = 0;
+    max_alloc = 0;
     prepares = 0;
     sql_log.clear();
     tick_watchdog_fired = false;
@@ -275,3 +276,27 @@ int64_t djsim_wrap_int64()
 {
     return (int64_t)((1ull << 61) + (g_rand_rng.next() >> 3) % (1ull << 61));
 }
+
+// ------------------------------------------------------------ heap request tap
+// Largest single request per API call: a decoder that asks for gigabytes because a
+// corrupted length field says so is caught deterministically, not by a timeout.
+#if defined(__SANITIZE_ADDRESS__)
+extern "C" void __sanitizer_malloc_hook(const volatile void*, size_t size)
+{
+    if (size > djsim::g_taps.max_alloc)
+        djsim::g_taps.max_alloc = size;
+}
+#else
+#include <new>
+void* operator new(std::size_t n)
+{
+    if (n > djsim::g_taps.max_alloc)
+        djsim::g_taps.max_alloc = n;
+    void* p = malloc(n ? n : 1);
+    if (!p)
+        throw std::bad_alloc();
+    return p;
+}
+void operator delete(void* p) noexcept { free(p); }
+void operator delete(void* p, std::size_t) noexcept { free(p); }
+#endif
